@@ -205,28 +205,39 @@ Section Whole.
   Definition spec_after_del (fd : option flt) (m : amap) : amap :=
     match filter_data fd with Some f => spec_delete sch f m | None => m end.
 
-  (* a local update never reports failure *)
-  Lemma apply_new_ok ex new fp d ok : apply_new sch false ex new fp = Ok (d, ok) -> ok = true.
+  (* a local update never reports failure, unless it carries a selector and no data item *)
+  Lemma apply_new_ok ex new fp d ok : (filter_data fp = None \/ new <> []) ->
+    apply_new sch false ex new fp = Ok (d, ok) -> ok = true.
   Proof.
-    intros Ea. unfold apply_new in Ea. destruct (filter_data fp) as [g|].
-    - destruct new; [discriminate|]. destruct (f_sel g); [apply copy_to_selected_local in Ea; tauto | inversion Ea; reflexivity].
+    intros Hne Ea. unfold apply_new in Ea. destruct (filter_data fp) as [g|].
+    - destruct new; [destruct Hne as [Hne|Hne]; [discriminate | contradiction]|].
+      destruct (f_sel g); [apply copy_to_selected_local in Ea; tauto | inversion Ea; reflexivity].
     - destruct new as [|n0 r].
       + rewrite merge_local in Ea. inversion Ea. reflexivity.
       + destruct (negb (has_identifiers sch n0)); [rewrite copy_to_all_local in Ea | rewrite merge_local in Ea]; inversion Ea; reflexivity.
   Qed.
 
+  Lemma wf_data_nonempty fp new : wf_data fp new = true -> filter_data fp = None \/ new <> [].
+  Proof.
+    unfold wf_data. intros H. apply andb_true_iff in H. destruct H as [_ H].
+    destruct (filter_data fp) as [f|]; [right | left; reflexivity].
+    destruct (f_sel f); [|discriminate]. destruct (f_elems f); [discriminate|]. destruct new; [discriminate | discriminate].
+  Qed.
+
   Lemma update_list_local l u d ok :
+    wf_update sch false u = true ->
     update_list sch false l (u_new u) (u_fp u) (u_fd u) = Ok (d, ok) ->
     ok = true /\ apply_new sch false (after_del (u_fd u) l) (u_new u) (u_fp u) = Ok (d, true).
   Proof.
+    intros Hu. pose proof (wf_data_nonempty _ _ (proj1 (wf_update_parts u Hu))) as Hne.
     unfold update_list, after_delete, after_del. intros H.
     destruct (filter_data (u_fd u)) as [f|].
     - destruct (delete_filtered sch false f l) as [[d0 ok0]|] eqn:Ed; [|discriminate].
       apply delete_filtered_local in Ed. destruct Ed as [-> ->].
       destruct (apply_new sch false (del_nf sch f l) (u_new u) (u_fp u)) as [[d1 ok1]|] eqn:Ea; [|discriminate].
-      pose proof (apply_new_ok _ _ _ _ _ Ea) as ->. inversion H. split; reflexivity.
+      pose proof (apply_new_ok _ _ _ _ _ Hne Ea) as ->. inversion H. split; reflexivity.
     - destruct (apply_new sch false l (u_new u) (u_fp u)) as [[d1 ok1]|] eqn:Ea; [|discriminate].
-      pose proof (apply_new_ok _ _ _ _ _ Ea) as ->. inversion H. split; reflexivity.
+      pose proof (apply_new_ok _ _ _ _ _ Hne Ea) as ->. inversion H. split; reflexivity.
   Qed.
 
   Lemma Inv_after_del u l m : wf_update sch false u = true -> Inv l m -> Inv (after_del (u_fd u) l) (spec_after_del (u_fd u) m).
@@ -241,7 +252,7 @@ Section Whole.
     update_list sch false l (u_new u) (u_fp u) (u_fd u) = Ok (d, ok) ->
     ok = true /\ Inv d (spec_apply sch false u m).
   Proof.
-    intros HI Hu H. apply update_list_local in H. destruct H as [-> H]. split; [reflexivity|].
+    intros HI Hu H. apply (update_list_local _ _ _ _ Hu) in H. destruct H as [-> H]. split; [reflexivity|].
     unfold spec_apply. change (match filter_data (u_fd u) with Some f => spec_delete sch f m | None => m end) with (spec_after_del (u_fd u) m).
     eapply data_phase; [apply Inv_after_del; eassumption | apply wf_update_parts; exact Hu | exact H].
   Qed.
@@ -321,7 +332,7 @@ Section Whole.
   Proof.
     intros HI Hu Hs H1 H2.
     pose proof (update_refines l m u d ok HI Hu H1) as [_ HId].
-    apply update_list_local in H1. destruct H1 as [_ H1]. apply update_list_local in H2. destruct H2 as [_ H2].
+    apply (update_list_local _ _ _ _ Hu) in H1. destruct H1 as [_ H1]. apply (update_list_local _ _ _ _ Hu) in H2. destruct H2 as [_ H2].
     destruct (wf_update_parts u Hu) as [Hwd Hwfd].
     unfold simple in Hs. apply orb_true_iff in Hs. destruct Hs as [Hs|Hs].
     - (* no delete filter *)
